@@ -68,6 +68,15 @@ func LoadKnown(path string) []Known {
 	return f.Findings
 }
 
+// InstallKnown loads the known-findings file into KnownKeys (call once per process).
+func InstallKnown(path string) {
+	for _, k := range LoadKnown(path) {
+		if k.Status == "known" {
+			KnownKeys[k.Property+"|"+k.Class+"|"+k.Sig] = k.What
+		}
+	}
+}
+
 func matchKnown(ks []Known, v *Violation) *Known {
 	for i := range ks {
 		k := &ks[i]
@@ -80,24 +89,24 @@ func matchKnown(ks []Known, v *Violation) *Known {
 
 // BatchResult is what one worker process writes.
 type BatchResult struct {
-	Prop        string           `json:"prop"`
-	World       string           `json:"world"`
-	Tier        string           `json:"tier"`
-	Seed        uint64           `json:"seed"`
-	Evaluations int              `json:"evaluations"`
-	Nontrivial  int              `json:"nontrivial"`
-	Digests     []uint64         `json:"digests"`
-	NtDigests   []uint64         `json:"nt_digests"`
-	Stats       map[string]int64 `json:"stats"`
-	SimMs       int64            `json:"sim_ms"`
-	Steps       int64            `json:"steps"`
-	Samples     []*Case          `json:"samples"`
-	Violations  []ReplayRef      `json:"violations"`
-	KnownHits   map[string]int   `json:"known_hits"`
+	Prop        string            `json:"prop"`
+	World       string            `json:"world"`
+	Tier        string            `json:"tier"`
+	Seed        uint64            `json:"seed"`
+	Evaluations int               `json:"evaluations"`
+	Nontrivial  int               `json:"nontrivial"`
+	Digests     []uint64          `json:"digests"`
+	NtDigests   []uint64          `json:"nt_digests"`
+	Stats       map[string]int64  `json:"stats"`
+	SimMs       int64             `json:"sim_ms"`
+	Steps       int64             `json:"steps"`
+	Samples     []*Case           `json:"samples"`
+	Violations  []ReplayRef       `json:"violations"`
+	KnownHits   map[string]int    `json:"known_hits"`
 	KnownWhat   map[string]string `json:"known_what"`
-	Infra       []string         `json:"infra"`
-	WallS       float64          `json:"wall_s"`
-	Seeds       []uint64         `json:"seeds_first_last"`
+	Infra       []string          `json:"infra"`
+	WallS       float64           `json:"wall_s"`
+	Seeds       []uint64          `json:"seeds_first_last"`
 }
 
 type ReplayRef struct {
@@ -123,6 +132,7 @@ func RunBatch(w World, o BatchOpts) *BatchResult {
 	res := &BatchResult{Prop: o.Prop, World: w.Name(), Tier: o.Tier, Seed: o.Seed,
 		Stats: map[string]int64{}, KnownHits: map[string]int{}, KnownWhat: map[string]string{}}
 	known := LoadKnown(o.KnownPath)
+	InstallKnown(o.KnownPath)
 	dig := map[uint64]struct{}{}
 	ntdig := map[uint64]struct{}{}
 	for i := o.From; i < o.To; i++ {
@@ -142,6 +152,10 @@ func RunBatch(w World, o BatchOpts) *BatchResult {
 		res.Steps += int64(len(c.Steps))
 		for k, v := range out.Stats {
 			res.Stats[k] += v
+		}
+		for k, v := range out.KnownSoft {
+			res.KnownHits[k] += v
+			res.KnownWhat[k] = KnownKeys[k]
 		}
 		for _, d := range out.Digests {
 			dig[d] = struct{}{}
